@@ -56,6 +56,24 @@ def _register_extras():
     _extras_registered = True
 
 
+# StoreGen.tla IdRenderings: how the abstract identifiers 1, 2, 3 ... of the specification are rendered as int64
+# flight identifiers - as themselves ("small") or as neighbours around a 19-digit composite key ("wide":
+# date + serial, consecutive integers that no float64 can tell apart).  Set per behaviour by run_behaviour.
+WIDE_BASE = 2026011500000000000
+_idr = {'wide': False}
+
+
+def cid(k: int) -> int:
+    """abstract identifier -> flight identifier handed to the store"""
+    return (WIDE_BASE + int(k)) if (_idr['wide'] and k) else int(k)
+
+
+def aid(c: int) -> int:
+    """flight identifier read from the store -> abstract identifier (unknown values are kept, they never match)"""
+    c = int(c)
+    return c - WIDE_BASE if (_idr['wide'] and 0 < c - WIDE_BASE < 100000) else c
+
+
 def npoints_of(p: int, big: bool) -> int:
     return (4000 if big else 6) + int(p)
 
@@ -79,7 +97,7 @@ def make_payload(p: int, fid: int, big: bool = False, missing: str | None = None
     t.n_cruise = n - 2
     t.n_descent = 1
     if fid:
-        t.flight_id = fid
+        t.flight_id = cid(fid)
     if extras:
         t.vx = np.arange(n, dtype=float)
         if missing != 'vm':
@@ -93,7 +111,7 @@ def ident(traj, big: bool) -> dict:
     try:
         p = int(round(float(traj.fuel_flow[0]))) // 1000
         fid_raw = getattr(traj, 'flight_id', None)
-        fid = 0 if fid_raw is None else int(fid_raw)
+        fid = 0 if fid_raw is None else aid(fid_raw)
         ref = make_payload(p, fid, big)
         if len(traj) != len(ref):
             return {'p': 'corrupt', 'id': fid, 'why': f'length {len(traj)} != {len(ref)}'}
@@ -231,7 +249,7 @@ class StoreRunner:
                     c.pop(arg, None)
                 return 'yes', '-', None, None
             if op == 'getflight':
-                r = ts.get_flight(arg)
+                r = ts.get_flight(cid(arg))
                 return 'yes', ({'p': 'none', 'id': 0} if r is None else ident(r, self.big)), None, None
             raise MachineryError(f'unknown op {op}')
         except MachineryError:
@@ -261,6 +279,7 @@ def run_behaviour(beh: dict, big=False, cache_mb=None, skip_bad=False):
     """Replay one behaviour. Returns None if it conforms, else a dict
     describing the first deviation."""
     warnings.simplefilter('ignore')
+    _idr['wide'] = beh.get('idr') == 'wide'
     r = StoreRunner(big=big, cache_mb=cache_mb)
     universe_ids = sorted({it['id'] for it in beh['added'] if it['id']} | {1, 2, 3, 7})
     try:
@@ -358,7 +377,7 @@ def run_behaviour(beh: dict, big=False, cache_mb=None, skip_bad=False):
                 byid = {it['id']: it for it in expect}
                 for fid in universe_ids:
                     try:
-                        g = ts.get_flight(fid)
+                        g = ts.get_flight(cid(fid))
                     except Exception as e:
                         return fdev('C08', f'reopen-getflight-raised-{type(e).__name__}', f'after reopen get_flight({fid}) raised {type(e).__name__}: {e}')
                     got = {'p': 'none', 'id': 0} if g is None else ident(g, big)
